@@ -27,3 +27,5 @@ Definition c_overN := 2.
 Definition c_failRatioNum := 1.
 Definition c_failRatioDen := 2.
 Definition c_tryTimeInterval := 30.
+Definition c_rogger_queue_cap := 10000.
+Definition c_rogger_wait_flush_timeout_ms := 1000.
